@@ -310,7 +310,7 @@ class HttpHeaderFieldValueExpectStaple(FieldsSemicolonSeparated):
     )
 
 
-class ContentSecurityPolicyDirectiveType(StringEnumParsable, enum.Enum):
+class ContentSecurityPolicyDirectiveType(StringEnumCaseInsensitiveParsable, enum.Enum):
     BASE_URI = FieldValueStringEnumParams(
         code='base-uri',
     )
@@ -673,8 +673,8 @@ class ContentSecurityPolicyDirectiveSourceBase(ContentSecurityPolicyDirectiveBas
         source_variant_parsable = cls._get_source_parser()
 
         if parser.unparsed_length:
-            parser.parse_separator(' ')
-            parser.parse_string_array('value', ' ', source_variant_parsable, skip_empty=True)
+            parser.parse_separator(' \t')
+            parser.parse_string_array('value', ' \t', source_variant_parsable, skip_empty=True)
             directive_value = parser['value']
         else:
             raise InvalidValue(parser.unparsed, cls, 'value')
@@ -890,7 +890,7 @@ class ContentSecurityPolicyDirectiveValueBase(ContentSecurityPolicyDirectiveBase
     def _parse(cls, parsable):
         parser = cls._parse_type(parsable)
 
-        parser.parse_separator(' ')
+        parser.parse_separator(' \t')
         parser.parse_parsable('value', cls._get_value_class())
 
         return cls(parser['value']), parser.parsed_length
@@ -969,8 +969,8 @@ class ContentSecurityPolicyDirectiveListValueBase(ContentSecurityPolicyDirective
         parser = cls._parse_type(parsable)
 
         if parser.unparsed_length:
-            parser.parse_separator(' ')
-            parser.parse_string_array('value', ' ', value_type, skip_empty=True)
+            parser.parse_separator(' \t')
+            parser.parse_string_array('value', ' \t', value_type, skip_empty=True)
 
         if value_min_length is not None and ('value' not in parser or len(parser['value']) < value_min_length):
             raise InvalidValue(parser.unparsed, cls, value_name)
@@ -1117,7 +1117,7 @@ class ContentSecurityPolicyDirectiveReportTo(ContentSecurityPolicyDirectiveBase)
     def _parse(cls, parsable):
         parser = cls._parse_type(parsable)
 
-        parser.parse_separator(' ')
+        parser.parse_separator(' \t')
         parser.parse_parsable('token', ContentSecurityPolicyToken)
 
         return cls(parser['token']), parser.parsed_length
@@ -1183,7 +1183,7 @@ class HttpHeaderFieldValueContentSecurityPolicy(ParsableBase, Serializable):
             'directives',
             separator=';',
             item_class=ContentSecurityPolicyDirectiveVariant,
-            separator_spaces=' ',
+            separator_spaces=' \t',
             skip_empty=True,
         )
 
